@@ -655,6 +655,23 @@ M('c15-getmulti-sentinel-late', 'C15', 'src/containers/qlisttbl.c',
   'GR2', 'qlisttbl_getmulti', 'end-of-array mark written only after the loop, the in-loop failure path frees an open array')
 
 
+# ---- wave 18 ------------------------------------------------------------------------------------
+M('c01-cmp-unsigned-length-diff', 'C01', 'src/containers/qtreetbl.c',
+  "    return (namesize1 < namesize2) ? -1 : +1;\n}",
+  "    return ((namesize1 - namesize2) > 0) ? +1 : -1;\n}",
+  'T6', 'qtreetbl_byte_cmp', 'length tie-break through an unsigned difference (always positive)')
+M('c01-shared-counter-read', 'C01', 'src/containers/qtreetbl.c',
+  "    _q_treetbl_flip_color_cnt++;\n", "    if ((++_q_treetbl_flip_color_cnt & 0xffff) == 0) obj->red = false;\n",
+  'G1', 'flip_color', 'the file-scope counter now steers the tree shape')
+M('c13-shared-counter-read', 'C13', 'src/containers/qtreetbl.c',
+  "    _q_treetbl_rotate_left_cnt++;\n", "    if ((++_q_treetbl_rotate_left_cnt & 0xffff) == 0) x->red = false;\n",
+  'G1', 'rotate_left', 'file-scope state read and written outside every container lock')
+M('c11-borrowed-name-freed', 'C11', 'src/containers/qhashtbl.c',
+  "    char *dupname = strdup(name);\n    void *dupdata = malloc(size);",
+  "    char *dupname = (obj != NULL) ? obj->name : strdup(name);\n    void *dupdata = malloc(size);",
+  'M', 'qhashtbl_put', 'the error path frees a local that may be the live entry\'s own name')
+
+
 def run_selftest(prop, rep, rule_fn, config='cmake-release'):
     """Apply every mutant of `prop` to a scratch copy, run rule_fn(prog, report) on it, and
     require a finding of the expected rule (and function)."""
